@@ -23,6 +23,7 @@ Check(e) ==
       [] e.kind = "rewrite" -> RewriteContract(e)
       [] e.kind = "cnf" -> CnfContract(e)
       [] e.kind = "detect" -> DetectContract(e)
+      [] e.kind = "solver_stream" -> SolverStreamContract(e)
       [] e.kind = "print_term" -> PrintTermContract(e)
       [] e.kind = "print_script" -> PrintScriptContract(e)
       [] e.kind = "parse" -> ParseContract(e)
